@@ -183,6 +183,9 @@ func genRules(c *Ctx, which ...string) {
 	if want["G4"] {
 		ruleG4(c)
 	}
+	if want["G1"] {
+		ruleG5(c)
+	}
 }
 
 type genCall struct {
@@ -821,4 +824,103 @@ func ruleV6(c *Ctx) {
 		c.ok("V6", s.name, s.fn.Pos(), found && limitOK && sep == "=", fmt.Sprintf("%s uses the separator \"=\" (limit 2 when splitting)", s.name),
 			fmt.Sprintf("separator %q found=%v limit2=%v: environment entries are joined and split inconsistently", sep, found, limitOK))
 	}
+}
+
+// ruleG5: a set replaces.
+func ruleG5(c *Ctx) {
+	m := c.M
+	c.rule("G5", "a set replaces: where an Adjust* function inserts into a removable piece of spec state through a setter that appends without looking for an existing entry of the same key, the insert is preceded in the same iteration by the delete of that element's key — the merge drops the removal marker of a remove-then-set and relies on this replacement", 1)
+	for _, f := range adjustFamily(m) {
+		type gc struct {
+			ci   ssa.CallInstruction
+			g    *ssa.Function
+			sub  string
+			kind genEffectKind
+		}
+		var gcs []gc
+		for _, ci := range calls(f) {
+			g := m.callee(ci.Common())
+			if g == nil || !isGeneratorMethod(g) || g == f {
+				continue
+			}
+			for s, k := range genEffect(m, g, 0) {
+				gcs = append(gcs, gc{ci, g, s, k})
+			}
+		}
+		for _, ins := range gcs {
+			if ins.kind&effInsert == 0 || !appendsOutput(m, ins.g) {
+				continue
+			}
+			// only for removable state: the function also deletes from it somewhere
+			removable := false
+			for _, d := range gcs {
+				if d.sub == ins.sub && d.kind&effDelete != 0 {
+					removable = true
+				}
+			}
+			if !removable {
+				continue
+			}
+			okR := false
+			for _, d := range gcs {
+				if d.sub != ins.sub || d.kind&effDelete == 0 || !domInstr(d.ci, ins.ci) {
+					continue
+				}
+				// same element: the delete's key and the insert's value derive from the same loop element
+				for _, da := range d.ci.Common().Args[1:] {
+					for _, ia := range ins.ci.Common().Args[1:] {
+						if sameLoopElem(da, ia) {
+							okR = true
+						}
+					}
+				}
+			}
+			c.ok("G5", f.Name()+"/"+ins.sub, ins.ci.Pos(), okR, fmt.Sprintf("%s replaces an existing %s entry of the same key when it sets one", f.Name(), ins.sub),
+				fmt.Sprintf("%s appends without removing an existing entry of the same key first: a set of a key that already exists in the spec (an original item the plugin removed and re-added, or overrode) leaves two entries", shortCallee(ins.ci.Common())))
+		}
+	}
+}
+
+// sameLoopElem: both values derive from the same range element (possibly through calls on it).
+func sameLoopElem(a, b ssa.Value) bool {
+	ra, rb := rangeElemOf(a, 0), rangeElemOf(b, 0)
+	return ra != nil && ra == rb
+}
+
+func rangeElemOf(v ssa.Value, d int) ssa.Value {
+	if d > 10 || v == nil {
+		return nil
+	}
+	switch x := v.(type) {
+	case *ssa.IndexAddr:
+		return x
+	case *ssa.Next:
+		return x
+	case *ssa.UnOp:
+		if al, ok := x.X.(*ssa.Alloc); ok {
+			// local copy of a value computed from the element
+			for _, r := range *al.Referrers() {
+				if st, ok := r.(*ssa.Store); ok && st.Addr == ssa.Value(al) {
+					if e := rangeElemOf(st.Val, d+1); e != nil {
+						return e
+					}
+				}
+			}
+			return nil
+		}
+		return rangeElemOf(x.X, d+1)
+	case *ssa.FieldAddr:
+		return rangeElemOf(x.X, d+1)
+	case *ssa.Field:
+		return rangeElemOf(x.X, d+1)
+	case *ssa.Extract:
+		return rangeElemOf(x.Tuple, d+1)
+	case *ssa.Call:
+		for _, a := range x.Call.Args {
+			if e := rangeElemOf(a, d+1); e != nil {
+				return e
+			}
+		}
+	}
+	return nil
 }
